@@ -478,8 +478,6 @@ def model_line(case, ran=None):
                    Sym("none") if not has_out_fwd else [Sym("some"), [tree_sx(m) for m in case["out_members"]]],
                    names_sx(o), o["con"], model_nones(case, case["members"]),
                    Sym("absent") if o["bs"] is None else list(o["bs"]), o["propagate"]])
-    if kindname == "tc" and case["front"] == "fast":
-        o = dict(o, fe=False)              # tensorclass._fast_apply forces filter_empty=False
     mode = "mt" if case["threads"] else "st"
     fwd_out = case["out"] if case["front"] != "named_apply" else None      # named_apply accepts out= and drops it
     k = sum(1 for _ in I.walk(case["self"]))
@@ -604,6 +602,19 @@ def cmp_expected(exp, got, path=(), lax_nont=False):
     return None
 
 
+def meta_blind(t):
+    """values are not observable on the meta device: with device=meta the leaves are compared by presence only"""
+    if t is None or isinstance(t, str):
+        return t
+    if t[0] == "L":
+        return ["L", "values"]
+    if t[0] == "T":
+        return t
+    if t[1][1] == "meta":
+        return ["N", t[1], [[k, meta_blind(c)] for k, c in t[2]]]
+    return ["N", t[1], [[k, (meta_blind(c) if c[0] != "L" else c)] for k, c in t[2]]]
+
+
 def erase_nested_names(t, root=False):
     if t is None or t == "cyclic" or t[0] == "L":
         return t
@@ -701,10 +712,7 @@ def lazy_reference(case):
 
 def effective(case):
     """container kinds as the nested dicts the reference speaks about"""
-    c = case
-    if case["kind"] == "tc" and case["front"] == "fast" and case["opts"]["fe"] is not False:
-        c = dict(case, opts=dict(case["opts"], fe=False))       # tensorclass._fast_apply forces filter_empty=False
-    return c
+    return case
 
 
 def check_case(case, mres):
@@ -830,9 +838,9 @@ def check_case(case, mres):
                     fails.append(("inplace:" + idd, case, {}, dict(sig, kind="inplace-identity", what=idd)))
             want_type = {"regular": "td", "alias": "td", "sub": "sub" if inplace else "td", "tc": "tc", "params": "params" if inplace else "td",
                          "lazy": "td"}[kindname]
-            if has_out and not inplace and kindname != "tc":
-                want_type = "td"
-            if got is not None and real["ret_type"] != want_type:
+            if has_out and not inplace:
+                want_type = "td" if kindname != "tc" else None
+            if got is not None and want_type is not None and real["ret_type"] != want_type:
                 fails.append(("result:type", case, {"got": real["ret_type"], "want": want_type}, dict(sig, kind="result", what="type")))
         # nothing written when the call returns None
         if exp is None and real.get("after") and inplace and real["before"]["self"] != real["after"]["self"]:
@@ -847,13 +855,15 @@ def check_case(case, mres):
             count("mt-vs-st:both-raise")           # which exception comes first is not promised
         elif kindname == "lazy" and (o["bs"] is not None or o["names"] != "absent" or has_out or o["dev"] != "absent"):
             count("mt-vs-st:gray lazy stack with batch_size= / names= / device= / out= in a thread pool")
+        elif hard_gray:
+            count("mt-vs-st:gray")
         elif inplace and has_out and not o["leaf_nont"] and any(e[0] == "T" for _, e in I.walk(case["self"])):
             count("mt-vs-st:gray inplace + out= + non-tensor entries")    # the single-threaded form copies out's non-tensor data into self
         else:
-            a = (mt["outcome"], strip_ident(mt.get("ret")) if mt.get("ret") != "cyclic" else "cyclic", mt.get("ret_type"))
-            b = (st["outcome"], strip_ident(st.get("ret")), st.get("ret_type"))
+            a = (mt["outcome"], meta_blind(strip_ident(mt.get("ret"))) if mt.get("ret") != "cyclic" else "cyclic", mt.get("ret_type"))
+            b = (st["outcome"], meta_blind(strip_ident(st.get("ret"))), st.get("ret_type"))
             if a != b:
-                dk = mt_diff_kind(mt, st)
+                dk = mt_diff_kind(mt, st, case)
                 sg = dict(sigbase, call="mt", kind="differs", diff=dk)
                 sg.update(mt_patterns(case))
                 fails.append(("mt:differs-from-single-threaded", case, {"mt": summarize(mt), "st": summarize(st), "diff": dk}, sg))
@@ -875,7 +885,9 @@ def check_case(case, mres):
             count("model:compared")
             io = impl_obs_for_model(case, real)
             loose = kindname in ("sub", "tc", "params")
-            if not same_obs(io, mo, loose):
+            if loose and hard_gray:
+                count("model:not-compared (gray in-place write on a view / wrapper)")
+            elif not same_obs(io, mo, loose):
                 mism.append(("apply:result", case, io, mo))
     else:
         count("model:not-applicable")
@@ -902,8 +914,8 @@ def loosen(t):
     if t is None or isinstance(t, str) or t[0] == "L":
         return t if (t is None or isinstance(t, str)) else ["L", "-", t[2]]
     if t[0] == "T":
-        return ["T", "-", t[2], t[3][:3]]
-    return ["N", "-", t[2][:3], [[k, loosen(c)] for k, c in t[3]]]
+        return ["T", "-", t[2], [t[3][0], t[3][1], t[3][2] or None]]
+    return ["N", "-", [t[2][0], t[2][1], t[2][2] or None], [[k, loosen(c)] for k, c in t[3]]]
 
 
 def same_obs(io, mo, loose=False):
@@ -975,14 +987,15 @@ def mt_patterns(case):
     return f
 
 
-def mt_diff_kind(mt, st):
+def mt_diff_kind(mt, st, case=None):
     if mt["outcome"] != "ok":
         return "mt-raises-" + mt["exc"]
     if st["outcome"] != "ok":
         return "st-raises-" + st["exc"]
     if mt["ret"] == "cyclic":
         return "mt-cyclic"
-    if st["ret"] is None and mt.get("ret_is") in ("self", "out") and strip_lock(mt["after"][mt["ret_is"]]) == strip_lock(mt["before"][mt["ret_is"]]):
+    if st["ret"] is None and mt.get("ret_is") in ("self", "out") and case is not None and case["kind"] != "lazy" and \
+            cmp_expected(REF.abstract_expected(case[mt["ret_is"]]), mt["ret"]) is None:
         return "extra-empty-nodes"          # nothing was written: self / out is returned where the other form returns None
     if strip_ident(erase_nested_names(mt["ret"])) == strip_ident(erase_nested_names(st["ret"])):
         return "names-only"
